@@ -13,6 +13,7 @@ open Gzx Gzx.GoM Gzx.GoVal Gzx.QRDec
 /-- the regenerated table `VERSIONS` numbers its 40 rows 1..40 -/
 theorem versions_numbered : QRTables.versions.map (·.num) = (List.range 40).map (· + 1) := by decide +kernel
 
+when_kernel Gzx.Gen.K01d.tbl_VERSION_DECODE_INFO in
 /-- the regenerated BCH words of the loop are the table the model is instantiated with -/
 theorem k_versionWords_eq : Gen.K01d.tbl_VERSION_DECODE_INFO = QRTables.vdi.map Int.ofNat := by decide +kernel
 
@@ -101,6 +102,7 @@ theorem k_decodeVersionInformation_scan (bits : Nat) (hb : bits < 2 ^ 64) :
       idx_drop _ k _ (rest.map Int.ofNat) (by simp [← List.map_drop, h])
     have e : ((k : Int) + 1) = ((k + 1 : Nat) : Int) := by omega
     have e7 : ((k : Int) + 7) = ((k + 7 : Nat) : Int) := by omega
+    have e7' : (7 + (k : Int)) = ((k + 7 : Nat) : Int) := by omega
     have w1 : wrap 64 (bits : Int) = (bits : Int) := wrap_of_lt 64 _ (by omega) (by omega)
     have w2 : wrap 64 (t : Int) = (t : Int) := wrap_of_lt 64 _ (by omega) (by omega)
     rw [List.length_cons, loop_succ]
@@ -108,12 +110,17 @@ theorem k_decodeVersionInformation_scan (bits : Nat) (hb : bits < 2 ^ 64) :
       k_numBitsDiffering_eq, k_getVersionForNumber_gvn, QRDec.verLoop]
     by_cases hc : t = bits
     · subst hc
-      simp only [beq_self_eq_true, if_true, expVer, e7]
+      first
+        | simp only [beq_self_eq_true, if_true, expVer, e7]
+        | simp only [beq_self_eq_true, if_true, expVer, e7']
     · have a1 : ¬ ((t : Int) = (bits : Int)) := by omega
       have hb' : ((t : Int) == (bits : Int)) = false := by simp [a1]
       simp only [hb', hc, if_false, Bool.false_eq_true]
       by_cases h1 : QRDec.numBitsDiffering bits t < best
-      · simp [h1]; rw [e, e7]; exact ih (k + 1) _ _ hd
+      · simp [h1]
+        first
+          | (rw [e, e7]; exact ih (k + 1) _ _ hd)
+          | (rw [e, e7']; exact ih (k + 1) _ _ hd)
       · simp [h1]; rw [e]; exact ih (k + 1) _ _ hd
 
 when_kernel Gzx.Gen.K01d.decodeVersionInformation in
